@@ -50,6 +50,7 @@ RULES = {
     "R-opaque": "the initializer expression of a `let` statement named by a directive is replaced by a call to an "
                 "assumed-contract function declared in the unit; the dropped expression is pinned (whitespace-normalised "
                 "text must equal the one in the unit, else the run is undecided) and is listed as unverified",
+    "R-auto-const": "a module-level `const` the contracted code uses but the unit does not list (introduced by a change) is copied verbatim",
     "R-wildparam": "a `_: T` function parameter is given a fresh unused name (Verus accepts identifier patterns only)",
     "R-self": "`Self::` in inherent-emitted trait methods left as is",
 }
@@ -321,6 +322,9 @@ def locate(repo, relfile, path):
     else:
         name = path.strip()
         cands = find_block_item(src, msk, "fn", name, 0, None, 0)
+        if not cands:
+            # a method of some other impl block of the file (helper moved / added next to the type)
+            cands = find_block_item(src, msk, "fn", name, 0, None, 1)
     if not cands:
         raise ExtractError("lost anchor: fn %s not found in %s" % (path, relfile))
     texts = []
@@ -548,7 +552,10 @@ def auto_helper(repo, relfile, path, hname, nopub):
     pure = False
     if ret is not None and ";" not in mask(inner) and not re.search(r"\b\w+\s*\(|\bif\b|\bmatch\b|\bloop\b|\bwhile\b|\bfor\b|\bunsafe\b|!\s*\(", mask(inner).replace("(", " (").replace("  (", " (")) :
         pure = True
-    if ret is not None and ";" not in mask(inner) and not re.search(r"[A-Za-z_]\w*\s*\(", mask(inner)) and not re.search(r"\b(if|match|loop|while|for|unsafe)\b", mask(inner)):
+    # (an `if .. else ..` over comparisons, field reads and constants is still a side-effect-free expression)
+    if ret is not None and ";" not in mask(inner) and not re.search(r"[A-Za-z_]\w*\s*\(", mask(inner)) \
+            and not re.search(r"\b(match|loop|while|for|unsafe|let|return|break|continue)\b", mask(inner)) \
+            and not re.search(r"(?<![=!<>])=(?!=)", mask(inner)):
         pure = True
         txt = splice_fn(txt, dict(ret="vx_r", sig="        ensures vx_r == (%s)," % inner, loops={}, ats=[], rename=None, closures=[], iters={}))
         rules.add("R-auto-ensures")
@@ -586,6 +593,25 @@ def build_unit(template_path, repo, canary=False, helpers=None, nodecr=None):
         if not s.startswith("//@"):
             out.append(ln)
             i += 1
+            if s == "verus! {":
+                # R-auto-const: module-level constants the contracted code started to use (introduced by a
+                # change) are copied verbatim from the file of the function that uses them
+                fn_files = [re.match(r"//@\s*fn\s+(\S+)", x.strip()).group(1) for x in lines
+                            if re.match(r"//@\s*fn\s+\S+", x.strip())]
+                done = set()
+                for ordn, names in sorted(helpers.items()):
+                    for hname in names:
+                        if not hname.startswith("const:") or hname in done or ordn >= len(fn_files):
+                            continue
+                        done.add(hname)
+                        raw = locate_item(repo, fn_files[ordn], "const", hname[6:])
+                        txt, rules = rewrite(raw, "const")
+                        rules.add("R-auto-const")
+                        lo = cur_line()
+                        out.append(txt)
+                        u.items.append(dict(kind="const", file=fn_files[ordn], path="(auto) " + hname[6:], name=hname[6:],
+                                            props=u.props, sha_before=sha(raw), sha_after=sha(txt), rules=sorted(rules),
+                                            line_lo=lo, line_hi=cur_line() - 1, contracted=False, auto=True, pure=True))
             continue
         d = s[3:].strip()
         if d.startswith("unit "):
@@ -775,6 +801,8 @@ def build_unit(template_path, repo, canary=False, helpers=None, nodecr=None):
                                 unverified_expressions=sorted(set(spec.get("dropped", []))),
                                 line_lo=lo, line_hi=cur_line() - 1, contracted=True))
             for hname in helpers.get(len([x for x in u.items if x["kind"] == "fn" and not x.get("canary") and not x.get("auto")]) - 1, []):
+                if hname.startswith("const:"):
+                    continue
                 htxt, hrules, pure = auto_helper(repo, relfile, path, hname, nopub)
                 lo = cur_line()
                 out.append(htxt)
